@@ -40,7 +40,65 @@ func decErrClass(err error) string {
 	}
 }
 
-type evRec struct{ sb *strings.Builder }
+// evRec prints the listener events; pd: per data record of the stream (in order) a digest of the field payloads, taken from
+// the bytes the REAL raw decoder (decoder.NewRaw) hands out for the record, cut by the sizes of the live definition
+type evRec struct {
+	sb *strings.Builder
+	pd []string
+	n  *int
+}
+
+// decwPayloads runs the real raw decoder over b and returns, per data record, the FNV-1a digest of
+// "<num>.<size>.<hex bytes>;…|<num>.<size>.<developer data index>.<hex bytes>;…" (field payloads as they are on the wire)
+func decwPayloads(b []byte) (out []string) {
+	defer func() { recover() }()
+	type fdef struct{ num, size, x byte }
+	type mdef struct{ fields, devs []fdef }
+	var defs [16]*mdef
+	decoder.NewRaw().Decode(bytes.NewReader(b), func(flag decoder.RawFlag, rb []byte) error {
+		switch flag {
+		case decoder.RawFlagFileHeader:
+			defs = [16]*mdef{}
+		case decoder.RawFlagMesgDef:
+			d := &mdef{}
+			n := int(rb[5])
+			for i := 0; i < n; i++ {
+				d.fields = append(d.fields, fdef{rb[6+3*i], rb[7+3*i], rb[8+3*i]})
+			}
+			if rb[0]&0x20 != 0 {
+				k := int(rb[6+3*n])
+				for i := 0; i < k; i++ {
+					d.devs = append(d.devs, fdef{rb[7+3*n+3*i], rb[8+3*n+3*i], rb[9+3*n+3*i]})
+				}
+			}
+			defs[rb[0]&0x0F] = d
+		case decoder.RawFlagMesgData:
+			local := rb[0] & 0x0F
+			if rb[0]&0x80 != 0 {
+				local = (rb[0] & 0x60) >> 5
+			}
+			d := defs[local]
+			if d == nil {
+				out = append(out, "-")
+				return nil
+			}
+			var sb strings.Builder
+			p := rb[1:]
+			for _, f := range d.fields {
+				fmt.Fprintf(&sb, "%d.%d.%s;", f.num, f.size, hex.EncodeToString(p[:f.size]))
+				p = p[f.size:]
+			}
+			sb.WriteByte('|')
+			for _, f := range d.devs {
+				fmt.Fprintf(&sb, "%d.%d.%d.%s;", f.num, f.size, f.x, hex.EncodeToString(p[:f.size]))
+				p = p[f.size:]
+			}
+			out = append(out, fmt.Sprintf("%016x", dapiFnv(0xcbf29ce484222325, sb.String())))
+		}
+		return nil
+	})
+	return out
+}
 
 func (e evRec) OnMesgDef(d proto.MessageDefinition) {
 	fs := make([]string, len(d.FieldDefinitions))
@@ -59,7 +117,14 @@ func (e evRec) OnMesg(m proto.Message) {
 	if m.Header&proto.MesgCompressedHeaderMask != 0 && len(m.Fields) > 0 {
 		ts = fmt.Sprint(m.Fields[0].Value.Uint32())
 	}
-	fmt.Fprintf(e.sb, " R%d.%d.%s.%d.%d", m.Header, m.Num, ts, len(m.Fields), len(m.DeveloperFields))
+	pd := "-"
+	if e.n != nil {
+		if *e.n < len(e.pd) {
+			pd = e.pd[*e.n]
+		}
+		*e.n++
+	}
+	fmt.Fprintf(e.sb, " R%d.%d.%s.%d.%d.p%s", m.Header, m.Num, ts, len(m.Fields), len(m.DeveloperFields), pd)
 }
 
 // decw chk=<0|1> <hex>: `for dec.Next() { dec.Decode() }` with component expansion off; events from the
@@ -74,7 +139,8 @@ func execDecW(args []string) string {
 		return "bad-op"
 	}
 	var sb strings.Builder
-	rec := evRec{&sb}
+	cnt := 0
+	rec := evRec{&sb, decwPayloads(b), &cnt}
 	opts := []decoder.Option{decoder.WithNoComponentExpansion(), decoder.WithMesgDefListener(rec), decoder.WithMesgListener(rec)}
 	if kv["chk"] == "0" {
 		opts = append(opts, decoder.WithIgnoreChecksum())
